@@ -4,7 +4,8 @@
            (local: this node's real raft group; remote-ok / remote-err: a scripted
            owner; noaddr: the owner has no known address; baddim: wrong dimension);
            order says whether the gate let the apply loop run before the caller
-           reached its select (apply-first) or not.
+           reached its select (apply-first) or not; abandoned = apply-first and the caller's
+           context is cancelled before it is released (the call after it must get its OWN outcome).
    conc  : several gated concurrent inserts, same id or distinct ids.
    batch : a batch call mixing partitions and item kinds; expect = the ids that
            must be reported, with their error class.
@@ -24,7 +25,9 @@ WriteViol(t) ==
   CASE t.path = "local" ->
          (IF t.ret = "ok" /\ ~AfterOk(t) THEN {<<l, "FalseAck">>} ELSE {})
          \cup (IF t.ret = "timeout" THEN {<<l, "OutcomeLost">>}
-               ELSE IF t.ret # Expected(t) THEN {<<l, "WrongOutcome">>} ELSE {})
+               \* order = "abandoned": the caller's context was cancelled after the outcome had been delivered -
+               \* it may return that outcome or the cancellation (an error is never a false acknowledgement)
+               ELSE IF t.ret # Expected(t) /\ ~(t.order = "abandoned" /\ t.ret = "err") THEN {<<l, "WrongOutcome">>} ELSE {})
     [] t.path = "local-noquorum" ->     \* accepted by the leader, never committed: must not be acknowledged
          (IF t.ret = "ok" \/ t.after # t.before THEN {<<l, "FalseAck">>} ELSE {})
     [] t.path = "remote-ok" ->
